@@ -200,7 +200,7 @@ def main(tier, seed):
     t0 = time.time()
     rep = C.Reporter(PID, tier, seed)
     C.build(['repo'])
-    n = 1500 if tier == 'quick' else 20000
+    n = 3000 if tier == 'quick' else 20000
     rundir = C.mktmp(PID)
     _RUN.update(tier=tier, seed=seed, dir=rundir, bin=C.HYEONG)
     results = C.pmap(_case, list(range(n)), chunksize=4, stop_after_bad=40,
